@@ -340,6 +340,53 @@ def run_shard(args, mod, seed):
     return res
 
 
+def run_fuzz(prop, mod, seed, parts):
+    """Coverage-guided stage (Atheris/libFuzzer through fuzz_one_input), thorough tier only.  Each worker runs two
+    campaigns on a private temporary corpus directory: from an empty corpus, then continuing from the corpus the
+    first campaign accumulated.  A missing atheris is recorded as skipped, never a failure."""
+    try:
+        import atheris  # noqa: F401
+    except Exception as e:
+        return {"skipped": "atheris not importable: %r" % (e,)}
+    cfg = mod.FUZZ
+    workers, runs = cfg.get("workers", 8), cfg.get("runs", 4000)
+    work = os.path.join(ROOT, ".work", "fuzz-%s-%d" % (prop, os.getpid()))
+    os.makedirs(work, exist_ok=True)
+    info = {"workers": workers, "runs_per_campaign": runs, "campaigns": 2 * workers, "executions": 0, "evaluations": 0, "violations": 0, "known": 0}
+    nontrivial = set()
+    extra_part = {"evaluations": 0, "nontrivial": [], "labels": {}, "samples": [], "violations": [], "known_lines": [], "findings_excluded": {}, "findings_reproduced": {}, "budget_exhausted": False}
+    for phase in (0, 1):
+        procs = []
+        for w in range(workers):
+            out = os.path.join(work, "w%d_p%d.json" % (w, phase))
+            cmd = [sys.executable, "-m", "lov.fuzz.driver", prop, "--runs", str(runs), "--seed", str(derive_seed(seed, prop, "fuzz", w, phase) % (2**31 - 1) or 1), "--out", out, "--corpus", os.path.join(work, "corpus%d" % w)]
+            procs.append((subprocess.Popen(cmd, cwd=ROOT, stdout=subprocess.DEVNULL, stderr=subprocess.DEVNULL), out))
+        for p, out in procs:
+            p.wait()
+            try:
+                with open(out) as fh:
+                    st = json.load(fh)
+            except Exception:
+                continue
+            info["executions"] += st.get("executions", 0)
+            info["evaluations"] += st.get("evaluations", 0)
+            info["known"] += st.get("known", 0)
+            nontrivial.update(st.get("nontrivial", []))
+            v = st.get("violation")
+            if v and "sig" in v:
+                info["violations"] += 1
+                extra_part["violations"].append(v)
+            elif v and "harness_error" in v:
+                info.setdefault("harness_errors", []).append(v["harness_error"][:300])
+    shutil.rmtree(work, ignore_errors=True)
+    info["distinct_nontrivial"] = len(nontrivial)
+    extra_part["evaluations"] = info["evaluations"]
+    extra_part["nontrivial"] = sorted(nontrivial)
+    extra_part["labels"] = {"fuzz_evaluations": info["evaluations"]}
+    parts.append(extra_part)
+    return info
+
+
 def merge(parts):
     out = {"evaluations": 0, "nontrivial": set(), "labels": collections.Counter(), "samples": [], "excluded_run_local": collections.Counter(), "invalid": 0}
     for p in parts:
@@ -448,6 +495,10 @@ def main(argv=None):
         print("HARNESS-ERROR: property=%s (not a violation)" % prop)
         return 2
 
+    fuzz_info = None
+    if args.tier == "thorough" and getattr(mod, "FUZZ", None) and not os.environ.get("LOV_NO_FUZZ"):
+        fuzz_info = run_fuzz(prop, mod, seed, parts)
+
     merged = merge(parts)
     violations = []
     seen = set()
@@ -467,6 +518,8 @@ def main(argv=None):
         "shards": nshards,
         "coverage_extra": parts[0].get("coverage_extra", {}) if parts else {},
     }
+    if fuzz_info is not None:
+        extra["coverage_extra"] = dict(extra.get("coverage_extra") or {}, fuzz=fuzz_info)
     if hasattr(mod, "gaps"):
         extra["gaps"] = mod.gaps(merged["labels"])
     wall = time.time() - t0
